@@ -40,11 +40,31 @@ impl Lexer {
 
     pub(super) fn next_token_is_else(&self) -> bool {
         let mut i = self.current;
-        // skip whitespace (but not newlines because we're already on a newline)
+        // skip everything the scanner does not turn into a token: whitespace, newlines,
+        // `//` comments and (nested) `/* */` comments
         while i < self.chars.len() {
             let c = self.chars[i];
+            let next = self.chars.get(i + 1).copied();
             if c == ' ' || c == '\t' || c == '\r' || c == '\n' {
                 i += 1;
+            } else if c == '/' && next == Some('/') {
+                while i < self.chars.len() && self.chars[i] != '\n' {
+                    i += 1;
+                }
+            } else if c == '/' && next == Some('*') {
+                let mut depth = 1;
+                i += 2;
+                while depth > 0 && i < self.chars.len() {
+                    if self.chars[i] == '/' && self.chars.get(i + 1) == Some(&'*') {
+                        depth += 1;
+                        i += 2;
+                    } else if self.chars[i] == '*' && self.chars.get(i + 1) == Some(&'/') {
+                        depth -= 1;
+                        i += 2;
+                    } else {
+                        i += 1;
+                    }
+                }
             } else {
                 break;
             }
